@@ -8,6 +8,8 @@ steps : before_ready | after_ready | req (before reading the k-th request) | rep
         midreply (after the first half of the k-th reply)
 faults: exit0 exit1 kill9 close_stdin close_stdout close_both hang_exit          (process / descriptor faults)
         truncated oversized wrong_type garbage bad_version str_wrap arr_huge deep_nest err_long err_20k err_300k   (message faults)
+        errtext strres ready_payload   (well-framed messages whose text/bytes are script["content_hex"]: FFI_ERROR text, string
+                                        FFI_RESULT, READY followed by a payload)
 Every pid this program creates is appended to FAKE_COP_DIR/pids so the harness can check for survivors by pid."""
 import os, sys, json, struct, signal, subprocess, time
 
@@ -124,6 +126,15 @@ def main():
         elif fault in ('err_20k', 'err_300k'):
             n = 20000 if fault == 'err_20k' else 300000
             wr(struct.pack('<BBHI', 1, 0x11, 0, n) + b'E' * n)
+        elif fault == 'errtext':
+            c = bytes.fromhex(sc.get('content_hex', ''))
+            wr(struct.pack('<BBHI', 1, 0x11, 0, len(c)) + c)
+        elif fault == 'strres':
+            c = bytes.fromhex(sc.get('content_hex', ''))
+            wr(struct.pack('<BBHI', 1, 0x10, 0, 5 + len(c)) + b'\x05' + struct.pack('<I', len(c)) + c)
+        elif fault == 'ready_payload':
+            c = bytes.fromhex(sc.get('content_hex', ''))
+            wr(struct.pack('<BBHI', 1, 0x12, 0, len(c)) + c)
         else:
             raise SystemExit('unknown fault ' + fault)
         return True
